@@ -246,13 +246,14 @@ pub struct Timing {
   pub predicted: Duration,
   /// wait for any other thread before it is treated as blocked
   pub other: Duration,
-  /// nobody can run and nobody arrives: dead-lock
+  /// nobody can run and nobody arrives for this long: dead-lock (generous: a commit under heavy
+  /// I/O load was seen to take > 15 s; a real dead-lock never ends)
   pub dead: Duration,
 }
 
 impl Default for Timing {
   fn default() -> Self {
-    Timing { predicted: Duration::from_millis(12), other: Duration::from_millis(1500), dead: Duration::from_secs(15) }
+    Timing { predicted: Duration::from_millis(12), other: Duration::from_millis(1500), dead: Duration::from_secs(180) }
   }
 }
 
